@@ -17,6 +17,7 @@
 use std::fmt::{Debug, Display};
 
 use crate::dataplane_path::standard::{
+    layout::StdPathMetaLayout,
     mac::{
         ForwardingKey,
         algo::{calculate_hop_mac, mac_beta_step},
@@ -245,6 +246,11 @@ impl StandardPathView {
         }
 
         let is_final_hop = curr_hop_idx + 1 >= hop_field_count as usize;
+
+        if !is_final_hop && curr_hop_idx + 1 > StdPathMetaLayout::MAX_TOTAL_HOPS {
+            // The next hop field index can not be represented in the CurrHF field
+            return Err(AdvanceError::HopOutOfBounds(curr_hop_idx as u8 + 1));
+        }
 
         // XXX(ake): In theory the check above guarantees that we can access the current
         // hop and info fields.
@@ -488,6 +494,11 @@ impl StandardPathView {
 
         if is_final_hop {
             // We are at the end of the path, we can't advance further
+            return Err(AdvanceError::HopOutOfBounds(curr_hop_idx as u8 + 1));
+        }
+
+        if curr_hop_idx + 1 > StdPathMetaLayout::MAX_TOTAL_HOPS {
+            // The next hop field index can not be represented in the CurrHF field
             return Err(AdvanceError::HopOutOfBounds(curr_hop_idx as u8 + 1));
         }
 
